@@ -175,6 +175,14 @@ func ceMain(args []string) {
 			}
 		}
 		created := time.Date(2021, 3, 4, 5, 6, 7, p.intn(2)*p.intn(1e9), time.UTC)
+		switch p.intn(8) {
+		case 0: // an event that was not stamped by Broker.Send
+			created = time.Time{}
+			st.hit("time:zero")
+		case 1: // another zone, far away years
+			created = time.Date(1+p.intn(9998), time.Month(1+p.intn(12)), 1+p.intn(28), p.intn(24), p.intn(60), p.intn(60), p.intn(1e9), time.FixedZone("x", (p.intn(27)-13)*3600+p.intn(2)*1800))
+			st.hit("time:zoned")
+		}
 		ttok, _ := json.Marshal(created)
 		if lateSigner {
 			// the signer arrives through Rotate after the filter has already processed events without one
